@@ -1,6 +1,6 @@
 (* C17 Control-plane messages survive their wire encodings.  Statements only; proofs live in Proofs/WireProofs*.v *)
 From UM Require Import Base.BytesDef Base.Dec Model.Wire Proofs.WireProofsBase Proofs.WireProofsLeaf Proofs.WireProofsCluster Proofs.WireProofsRepl Proofs.WireProofsTrunc
-  Proofs.WireProofsSound Proofs.WireProofsSoundRepl Proofs.WireProofsCompact.
+  Proofs.WireProofsSound Proofs.WireProofsSoundRepl Proofs.WireProofsCompact Proofs.WireProofsFuel.
 
 (* ---- leaf records: decode (encode x ++ rest) = Ok (normal form of x, rest) ---- *)
 
@@ -195,6 +195,13 @@ Check C17_compact_normal_form :
   (forall l c, compact l = Some c -> is_compact c = true) /\
   (forall toks c rest, parse_range_list toks = Ok (c, rest) -> is_compact c = true).
 Print Assumptions C17_compact_normal_form.
+
+(* the loops of the model run on fuel (token count + 1): the out-of-fuel error is unreachable, so every model outcome is an
+   outcome of the mirrored code *)
+Theorem C17_no_fuel_error : (forall unpack toks, parse_pcm unpack toks <> Err EFuel) /\ (forall toks, parse_repl toks <> Err EFuel).
+Proof. split; [exact parse_pcm_no_fuel|exact parse_repl_no_fuel]. Qed.
+Check C17_no_fuel_error : (forall unpack toks, parse_pcm unpack toks <> Err EFuel) /\ (forall toks, parse_repl toks <> Err EFuel).
+Print Assumptions C17_no_fuel_error.
 
 (* non-vacuity: concrete non-trivial values satisfy the hypotheses *)
 Definition ex_mm : mig_meta := MkMM 7799 [49; 50; 55] [97] [98] [99; 58; 49].
